@@ -14,7 +14,7 @@ Property theorems only (helpers: `Proofs/Lemmas/Dynamics.lean`; model: `Pose/Mod
 * §4 NLS: the symbolic partial derivative is the derivative (`symdiff_correct`); the entries of
   `A, B, C, D` are the partial derivatives of the components of `f`, `g` at the reference point
   (`jacobian_A … jacobian_D`); `A x* + B u* + c1 = f(x*,u*,t*)`, same for `g` (`affine_reproduces`);
-  over all histories (`nls_history`); the error of the affine model is second order
+  over all histories (`nls_history`, clock: `nls_clock`, `nls_rollout_time`); the error of the affine model is second order
   (`second_order`, `nls_second_order`).
 * §5 what the code as it stands does when the reference time is the live clock buffer
   (`nls_history_alias`, `nls_history_alias_ok`, `alias_defect_witness`).
@@ -238,6 +238,43 @@ theorem nls_call (al : Bool) (fs gs : List Fn) (S : NState ℝ) (x u : DVec ℝ)
     ∃ f g, (stepN al fs gs S (.call x u)).2 = .outputs f g ∧
       f = evalAll fs (mkEnv x u (S.clock : ℝ)) ∧ g = evalAll gs (mkEnv x u (S.clock : ℝ)) := by
   simp [stepN]
+
+/-- **The NLS clock over all histories** (calls, `set_refpoint`s that succeed or raise, resets, assignments;
+both semantics of `_ref_t`): it is the clock machine run on the corresponding events — `set_refpoint` never
+moves it — so `clock_history` applies: last set value plus completed calls since. -/
+theorem nls_clock (al : Bool) (fs gs : List Fn) (evs : List (NEv ℝ)) : ∀ (S : NState ℝ),
+    (runN al fs gs S evs).clock = runClock .nls S.clock (evs.map NEv.toEv) := by
+  induction evs with
+  | nil => intro S; simp [runN, runClock]
+  | cons e es ih =>
+    intro S
+    rw [runN_cons, ih]
+    have : (stepN al fs gs S e).1.clock = stepClock .nls S.clock e.toEv := by
+      cases e with
+      | call x u => simp [stepN, NEv.toEv, stepClock]
+      | reset t => simp [stepN, NEv.toEv, stepClock]
+      | assign t => simp [stepN, NEv.toEv, stepClock]
+      | refpoint x? u? tr =>
+        simp only [stepN, NEv.toEv, stepClock, setRefpoint]
+        cases orLast x? (S.last.map Prod.fst) <;> simp
+        cases orLast u? (S.last.map Prod.snd) <;> simp
+    rw [this]; simp [runClock]
+
+/-- after `n` calls in a row the time is `c + n` (the `i`-th call is evaluated at time `c + i`) -/
+theorem nls_rollout_time (al : Bool) (fs gs : List Fn) (S : NState ℝ) (xus : List (DVec ℝ × DVec ℝ)) :
+    (runN al fs gs S (xus.map fun xu => .call xu.1 xu.2)).clock = S.clock + xus.length := by
+  rw [nls_clock, clock_no_set]
+  · congr 1
+    induction xus with
+    | nil => simp [calls]
+    | cons xu xus ih =>
+      simp only [calls, List.map_cons, NEv.toEv, List.filter_cons, isCall, if_true, List.length_cons] at ih ⊢
+      push_cast at ih ⊢
+      rw [ih]
+  · intro e he
+    simp only [List.map_map, List.mem_map, Function.comp] at he
+    obtain ⟨_, _, rfl⟩ := he
+    simp [NEv.toEv, setVal]
 
 /-- **The symbolic partial derivative is the partial derivative**, for every expression tree, every
 environment, every variable. (This is the oracle for `A, B, C, D`.) -/
